@@ -124,6 +124,10 @@ def run(ck):
                 fc_mode = 'absent'
             extra = dict(extra, **({} if fc_mode == 'absent' else dict(fast_categorical=fc_mode)))
             ck.count(f'categorical_info given, fast_categorical {fc_mode}')
+        # label ids with a gap (classes 0, 1, 3: id 2 never occurs): whatever the fit learns about which ids occur has to survive the round trip
+        if task == 'class' and i % 8 == 5 and not cat_regime:
+            y = np.where(y == 2, 3, y).astype(y.dtype); yv = np.where(yv == 2, 3, yv).astype(yv.dtype); y[0] = 3; yv[0] = 3
+            ck.count('class ids with a gap')
         # degenerate gate scale: an indicator feature that is 0 for 80% of the rows, split along it, soft routing -> the inter-quartile
         # range of the projections is 0 and the stored adaptive scale sits at its 1e-6 clamp
         flat_gate = (i % 7 == 3) and not depth0
